@@ -11,8 +11,10 @@ import (
 
 var c10Names = []string{"/d", "/d/g", "/f", "/missing", "/d/new", "/missing/x"}
 
-func c10Prestate() *verifFS {
-	v := verifNewFS(config.PipeConfig{}, false, true)
+func c10Prestate() *verifFS { return c10PrestateWith(config.PipeConfig{}) }
+
+func c10PrestateWith(pipes config.PipeConfig) *verifFS {
+	v := verifNewFS(pipes, false, true)
 	v.rootOnly()
 	v.Env.AddEntry("/d", tar.TypeDir, 0, false, "")
 	v.Env.AddEntry("/d/g", tar.TypeReg, 3, false, "")
@@ -88,11 +90,18 @@ func c10Call(v *verifFS, op int, name, other string) error {
 			return err
 		}
 		return h.Close()
+	case 15:
+		// emptied through the handle: opened with O_TRUNC and closed without a write
+		h, err := f.OpenFile(name, os.O_WRONLY|os.O_TRUNC, 0)
+		if err != nil {
+			return err
+		}
+		return h.Close()
 	}
 	return nil
 }
 
-const c10Ops = 15
+const c10Ops = 16
 
 // Harness_C10_call_returns_and_frees_drive: one call with at most one injected fault (drive open, stat,
 // seek, read, write, close, truncate; every index-store statement; user lookup): the call returns,
